@@ -35,7 +35,7 @@ def write_evidence(pid, tier, seed, records, extra_records, wall, violations, in
     meta = INFO.get(pid, {})
     ok = [r for r in records if r["verdict"] in ("held", "expected-failure")]
     nontrivial = [r for r in records if r["verdict"] == "held" and r.get("covers_sat", 0) > 0 and r.get("covers_unsat", 0) == 0]
-    nontrivial += [r for r in extra_records if r["verdict"] == "held"]
+    extra_nontrivial = sum(int(r.get("nontrivial", 1)) for r in extra_records if r["verdict"] == "held")
     samples = []
     for r in records + extra_records:
         s = {k: r[k] for k in ("instance", "engine", "bounds", "unwind", "stubs", "verdict", "checks",
@@ -45,7 +45,7 @@ def write_evidence(pid, tier, seed, records, extra_records, wall, violations, in
     stubs = sorted({s for r in records for s in r.get("stubs", [])})
     cov = {
         "evaluations": len(records) + sum(r.get("queries", 1) for r in extra_records),
-        "distinct_nontrivial": len(nontrivial),
+        "distinct_nontrivial": len(nontrivial) + extra_nontrivial,
         "rule": ("one evaluation = one solver query discharged: a Kani/CBMC harness instance (all values of its "
                  "symbolic inputs inside the stated bounds, unwinding assertions on) or one SMT check-sat; an "
                  "instance is counted non-trivial only if it was decided (no timeout/out-of-memory) and every "
